@@ -595,7 +595,7 @@ class Sim:
                 for i in range(app['n']):
                     pk = self.CRTPPacket()
                     pk.set_header((i * 7) % 15, i % 4)
-                    pk.data = bytes([i & 0xff, (i >> 8) & 0xff, rng.randrange(256)])
+                    pk.data = bytes(([i & 0xff, (i >> 8) & 0xff, rng.randrange(256)] + [(5 * j + i) & 0xff for j in range(27)])[:30 if i % 4 == 0 else 3])
                     f = [pk.header] + list(pk.data)
                     if self.drv.send_packet(pk):
                         self.accepted.append(f)
